@@ -364,6 +364,63 @@ def srvRun (v : Variant) (caps : Caps) (y : Srv) : List (Nat × Act) → Srv
 /-- the actions of connection `i` in a schedule of the whole server -/
 def proj (i : Nat) (sched : List (Nat × Act)) : List Act := (sched.filter (fun p => p.1 == i)).map (·.2)
 
+/-! ## The client's side of a stream: `StreamingConn.ReadMessage` / `ReadMessageWithOpts`
+(websocket_client.go:455-486)
+
+`readMsg` arms the connection's read deadline with the deadline of *this* read's options — the zero
+time, i.e. `ReadMessage` without options, clears it — and reads one frame.  A read that runs into its
+deadline fails, and the websocket library keeps a failed read's error: every later read fails too.
+`sticky = true` is the variant that only touches the deadline when the options carry one, so that the
+deadline of an earlier read stays armed. -/
+structure CConn where
+  now : Nat := 0
+  /-- the read deadline armed on the connection (absolute), `none`: no deadline -/
+  deadline : Option Nat := none
+  /-- frames that have arrived and were not read yet -/
+  inbox : List Frame := []
+  /-- a read has failed -/
+  dead : Bool := false
+  deriving Repr, DecidableEq
+
+inductive ROut where
+  | frame (f : Frame) | timedOut | waits | failed
+  deriving Repr, DecidableEq
+
+inductive CAct where
+  | tick (d : Nat)            -- time passes
+  | arrive (f : Frame)        -- a frame of the server arrives
+  | read (dl : Option Nat)    -- `ReadMessageWithOpts` with a deadline `dl` ahead / `ReadMessage` (`none`)
+  deriving Repr, DecidableEq
+
+def cRead (sticky : Bool) (c : CConn) (dl : Option Nat) : CConn × ROut :=
+  if c.dead then (c, .failed) else
+  let d := match dl with
+    | some r => some (c.now + r)
+    | none => if sticky then c.deadline else none
+  let c := { c with deadline := d }
+  match d with
+  | some t =>
+    if t ≤ c.now then ({ c with dead := true }, .timedOut)
+    else match c.inbox with
+      | f :: rest => ({ c with inbox := rest }, .frame f)
+      | [] => (c, .waits)
+  | none =>
+    match c.inbox with
+    | f :: rest => ({ c with inbox := rest }, .frame f)
+    | [] => (c, .waits)
+
+def cStep (sticky : Bool) (c : CConn) : CAct → CConn × List ROut
+  | .tick d => ({ c with now := c.now + d }, [])
+  | .arrive f => ({ c with inbox := c.inbox ++ [f] }, [])
+  | .read dl => ((cRead sticky c dl).1, [(cRead sticky c dl).2])
+
+def cRun (sticky : Bool) (c : CConn) : List CAct → CConn × List ROut
+  | [] => (c, [])
+  | a :: as =>
+    let r := cStep sticky c a
+    let rest := cRun sticky r.1 as
+    (rest.1, r.2 ++ rest.2)
+
 /-! ## Line-protocol driver
 
 The harness drives the client and the service of one or more streaming connections step by step
@@ -470,6 +527,28 @@ def step (s : State) (toks : List String) : State × String :=
     match k.toNat?, x.toNat?, find s n with
     | some k, some x, some c => ok s (ext c (.emit k 0 x))
     | _, _, _ => (s, "bad-op")
+  | ["emitbig", n, k, x, _kb] =>
+    -- a big message: the size is the transport's business, nothing of onet's depends on it
+    match k.toNat?, x.toNat?, find s n with
+    | some k, some x, some c => ok s (ext c (.emit k 0 x))
+    | _, _, _ => (s, "bad-op")
+  | ["creadopt", n, ms] =>
+    -- one read of onet's client with its own options (`CConn`/`cRead` below the connection model:
+    -- the deadline is per read): the next frame; when there is none, the deadline passes (or, without
+    -- deadline, the harness gives up)
+    match ms.toNat?, find s n with
+    | some ms, some c =>
+      match c.st.s2c[c.read]? with
+      | some f => (put s { c with read := c.read + 1 }, showFrame f)
+      | none => (s, if ms = 0 then "timeout" else "deadline")
+    | _, _ => (s, "bad-op")
+  | ["quiet", ms] => (s, if ms.toNat?.isSome then "ok" else "bad-op")
+  | ["cpause", n] => (s, if (find s n).isSome then "ok" else "bad-op")    -- the client's reading is not onet's
+  | ["cresume", n] => (s, if (find s n).isSome then "ok" else "bad-op")
+  | ["cpingraw", n] =>
+    -- a ping of a raw client: the library answers it under the reader's `ReadMessage` with a control
+    -- frame of its own; the reader routine itself writes nothing, so the write loop is not disturbed
+    (s, if (find s n).isSome then "ok" else "bad-op")
   | ["svcclose", n, k] =>
     match k.toNat?, find s n with
     | some k, some c => ok s (ext c (.svcClose k))
